@@ -48,14 +48,111 @@ def run(chk):
     rp = run_rules(chk, "C05", [], {})   # evidence boilerplate (lemma stats, trust base)
     from props import c10
     c10.annotation_obligations(chk)      # eig rules: Unitary / Stiefel on the returned n x k eigenvector operator
+    krylov_and_svd_outputs(chk)
     declare_cases(chk)
 
     def replayer(ob):
         w = ob.witness or {}
         if w.get("engine") == "direct":
             return w
+        if w.get("engine") in ("LANCZOS", "ARNOLDI", "SVD-BOUNDED"):
+            return outputs_replay(w)
         return rp(ob)
     return replayer
+
+
+def krylov_and_svd_outputs(chk):
+    """(b'') labels attached to the outputs of lanczos, arnoldi and the svd rules (the property's quantifier names them): the REAL wrapper / rule is run in the
+    index domain; the label must be among those the factorisation contract justifies, and the columns that are returned must be exactly the ones the loop
+    invariant (C14 / C15 orthonormality obligations) or the dependency contract (xnp.svd, lanczos_eigs) makes orthonormal."""
+    from props import c14, c15, c16_svd
+    from vcgen.core import pmap
+    tasks = []
+    for dt in ("real", "complex"):
+        for cap in ("cap<n", "cap>=n"):
+            tasks.append((c14.wrapper_one, (dt, cap), "lanczos"))
+            tasks.append((c15.wrapper_one, (dt, cap), "arnoldi"))
+        tasks.append((c16_svd.diag_one, (dt,), "svd"))
+        for shape in ("tall", "wide", "square"):
+            tasks.append((c16_svd.lanczos_svd_one, (dt, shape), "svd"))
+    for shape in ("tall", "wide", "square"):
+        tasks.append((c16_svd.one, ("dense", shape), "svd"))
+    tasks.append((c16_svd.one, ("identity", "square"), "svd"))
+    for nm in ("cola.linalg.decompositions.lanczos.lanczos", "cola.linalg.decompositions.arnoldi.arnoldi", "cola.linalg.svd.svd.svd"):
+        chk.under_contract(nm)
+
+    def work(i):
+        fn, args, kind = tasks[i]
+        obs = fn(*args, prop="C05")
+        if kind in ("lanczos", "arnoldi"):
+            # the factorisation itself is C14 / C15; here: the label and the column range it covers
+            obs = [ob for ob in obs if "reported labels" in ob.clause or ob.status != "discharged"]
+        return obs
+    for obs in pmap(work, len(tasks)):
+        for ob in obs:
+            chk.add(ob)
+
+
+def outputs_replay(w):
+    """native run: the operators returned by lanczos / arnoldi / svd on small concrete inputs, every reported label tested on the dense matrix"""
+    import json
+    import subprocess
+    code = r'''
+import json, sys, numpy as np, cola, importlib
+sys.path.insert(0, "/verif")
+from replay import np_shim; np_shim.install()
+rng = np.random.default_rng(5)
+out = dict(replayed=True, failing_input_found=False)
+def check(name, op, inp):
+    D = np.asarray(op.to_dense())
+    for a in op.annotations:
+        ok = True
+        if a.__name__ in ("Stiefel", "Unitary"):
+            ok = np.allclose(D.conj().T @ D, np.eye(D.shape[1]), atol=1e-6) and (a.__name__ == "Stiefel" or D.shape[0] == D.shape[1])
+        elif a.__name__ in ("SelfAdjoint", "PSD"):
+            ok = D.shape[0] == D.shape[1] and np.allclose(D, D.conj().T, atol=1e-8) and (a.__name__ == "SelfAdjoint" or np.linalg.eigvalsh((D + D.conj().T) / 2).min() > -1e-8)
+        if not ok:
+            return dict(replayed=True, failing_input_found=True, input=inp, observed=f"{name} ({D.shape[0]} x {D.shape[1]}) reports {a.__name__}; |Q^H Q - I| = {np.abs(D.conj().T @ D - np.eye(D.shape[1])).max():.2e}", expected=f"{a.__name__} true of the matrix")
+    return None
+Ar = importlib.import_module("cola.linalg.decompositions.arnoldi"); Lz = importlib.import_module("cola.linalg.decompositions.lanczos")
+svd = importlib.import_module("cola.linalg.svd.svd").svd
+from cola.linalg.algorithm_base import Auto
+res = None
+for n in (1, 3, 6):
+    for cplx in (False, True):
+        M = rng.standard_normal((n, n)) + (1j * rng.standard_normal((n, n)) if cplx else 0) + n * np.eye(n)
+        v = rng.standard_normal(n)
+        for mi in sorted({1, max(1, n // 2), n, n + 2}):
+            Q, H, _ = Ar.arnoldi(cola.ops.Dense(M), v, max_iters=mi, tol=1e-10)
+            res = res or check("Q of arnoldi", Q, f"arnoldi(Dense({n}x{n} {'complex' if cplx else 'real'}), random start vector, max_iters={mi})")
+            S = (M + M.conj().T) / 2
+            Q, T, _ = Lz.lanczos(cola.SelfAdjoint(cola.ops.Dense(S)), v, max_iters=mi, tol=1e-10)
+            res = res or check("Q of lanczos", Q, f"lanczos(Hermitian {n}x{n}, max_iters={mi})")
+        for k in sorted({1, n}):
+            for shp in ((n + 2, n), (n, n + 2), (n, n)):
+                B = rng.standard_normal(shp) + (1j * rng.standard_normal(shp) if cplx else 0)
+                for algname in ("DenseSVD", "Lanczos"):
+                    from cola.linalg.svd.svd import DenseSVD
+                    from cola.linalg.decompositions.decompositions import Lanczos
+                    alg = DenseSVD() if algname == "DenseSVD" else Lanczos(max_iters=50, tol=1e-12)
+                    try:
+                        U, Sg, V = svd(cola.ops.Dense(B), k, "LM", alg)
+                    except Exception as e:
+                        continue
+                    for nm, op in (("U", U), ("V", V)):
+                        res = res or check(f"{nm} of svd[{algname}]", op, f"svd(Dense({shp[0]}x{shp[1]}), k={k}, {algname})")
+        d = rng.standard_normal(n) + (1j * rng.standard_normal(n) if cplx else 0)
+        d[0] = 1e-20
+        U, Sg, V = svd(cola.ops.Diagonal(d), n, "LM", Auto())
+        for nm, op in (("U", U), ("V", V)):
+            res = res or check(f"{nm} of svd(Diagonal)", op, f"svd(Diagonal with entries {np.round(d[:3], 3).tolist()}...)")
+print(json.dumps(res or out))
+'''
+    p = subprocess.run(["/venv/bin/python", "-W", "ignore", "-c", code], cwd="/repo", capture_output=True, text=True, timeout=600)
+    try:
+        return json.loads(p.stdout.strip().splitlines()[-1])
+    except Exception:
+        return dict(replayed=False, failing_input_found=False, error=(p.stdout + p.stderr)[-600:])
 
 
 def product_patterns(chk):
